@@ -22,10 +22,11 @@ import (
 
 // C12: zapcore.BufferedWriteSyncer over a recording sink with a scripted outcome per call,
 // and a fake ticker (a Clock whose NewTicker returns &time.Ticker{C: ch}).
-// input  = (size (op ...) (outcome ...) mode)   op = (0 #bytes) Write | (1) Sync | (2) tick | (3) Stop
+// input  = (size (op ...) (outcome ...) mode)   op = (0 bytes) Write | (1) Sync | (2) tick | (3) Stop
 //          outcome = (short err): short = -1 takes everything; mode 1 = raw bufio.Writer
+//          bytes = #hex up to 256 bytes, longer ones run-length encoded (#b n #b n ...) (c12bytesSX)
 // output = (((res (ev ...)) ...) alive (live ...))   res = (0 n e) | (1 e) | (2 delivered) | (3 e)
-//          ev = (0 #p n) sink.Write(p) returned n | (1) sink.Sync()
+//          ev = (0 bytes n) sink.Write(p) returned n | (1) sink.Sync()
 //          live = per operation: is THIS syncer's flush goroutine present once the operation has returned
 //                 (after a Stop: still there after Stop returned -- parked in flushLoop's select, or not gone
 //                 within the grace period); alive = a tick sent after the whole history is still served
@@ -446,11 +447,33 @@ func c12runBufio(size int, ops []c12op, outs []c12out) (rs []c12res) {
 	return
 }
 
+// c12bytesSX is the wire form of a byte string (coq/theories/C12/Model.v: enc_bytes): literal up to 256
+// bytes, above that the flat list of its maximal runs of one byte, (#b n #b n ...).  Payloads for buffer
+// sizes of tens or hundreds of KiB are generated as a few long runs, so such cases stay a few hundred bytes
+// long; the oracle requires observations to be in exactly this form.
+const c12rleMin = 256
+
+func c12bytesSX(p []byte) SX {
+	if len(p) <= c12rleMin {
+		return B(p)
+	}
+	var xs []SX
+	for i := 0; i < len(p); {
+		j := i
+		for j < len(p) && p[j] == p[i] {
+			j++
+		}
+		xs = append(xs, B(p[i:i+1]), I(j-i))
+		i = j
+	}
+	return L(xs...)
+}
+
 func c12caseSX(size int, ops []c12op, outs []c12out, mode int) SX {
 	xs := make([]SX, len(ops))
 	for i, o := range ops {
 		if o.kind == 0 {
-			xs[i] = L(I(0), B(o.bs))
+			xs[i] = L(I(0), c12bytesSX(o.bs))
 		} else {
 			xs[i] = L(I(o.kind))
 		}
@@ -477,7 +500,7 @@ func c12obsSX(rs []c12res, alive bool, live []bool) SX {
 			if e.sync {
 				es[j] = L(I(1))
 			} else {
-				es[j] = L(I(0), B(e.p), I(e.n))
+				es[j] = L(I(0), c12bytesSX(e.p), I(e.n))
 			}
 		}
 		xs[i] = L(rx, L(es...))
@@ -579,6 +602,8 @@ wait:
 		}
 	}
 	held := 0
+	cfgSize := size
+	size = c12effSize(cfgSize) // the meta data below is about the buffer bufio ends up with
 	for _, o := range ops {
 		switch o.kind {
 		case 0:
@@ -721,6 +746,9 @@ func c12(c *Ctx) {
 		c12emit(c, d.size, d.ops, d.outs, 0, "directed")
 		c12emit(c, d.size, d.ops, d.outs, 1, "directed-bufio")
 	}
+	// ---- 1b. sizes far above the ones used below: around powers of two and page multiples, the 256 KiB
+	// default +- 1, write lengths relative to the size (c12_sizes.go)
+	c12sizeClasses(c)
 	// ---- 2. exhaustive small histories: size 3, ops over {W"", W1, W2, W4, Sync, Tick, Stop}, length <= L
 	Lmax := 4
 	if c.Thorough {
